@@ -98,6 +98,14 @@ DC01 == (Done /\ ZeroOnBoundary(G, C)) =>
    /\ C01_ClosedMatrix(G, SchemeVolume(G), CentralRows(G, C))
    /\ C01_ClosedMatrix(G, SchemeVolume(G), UpwindRows(G, C, C))
    /\ C01_ClosedVector(G, SchemeVolume(G), Div(G, C))
+TestField(g) == [c \in AllCells(g) |-> R(1 + ((LinIdx(g, c) * 7) % 5))]
+\* open boundaries: change of the domain integral = net boundary flux, with the TRUE face areas
+DC01_Open == Done =>
+   LET phi == TestField(G)
+       V == SchemeVolume(G)
+   IN  /\ C01_OpenMatrix(G, V, DiffusionRows(G, AbsField(C)), phi, FMul(AbsField(C), Grad(G, phi)))
+       /\ C01_OpenMatrix(G, V, CentralRows(G, C), phi, FMul(C, LinearMean(G, phi)))
+       /\ C01_OpenMatrix(G, V, UpwindRows(G, C, C), phi, FMul(C, UpwindMean(G, phi, C)))
 \* the cylindrical and Cartesian families are conservative w.r.t. the TRUE geometric volumes
 DC01_Geometric == (Done /\ G.cls # "SphericalGrid3D") => SchemeVolume(G) = GeoVolume(G)
 \* C04: terms contribute to interior rows only
@@ -105,7 +113,6 @@ DC04 == Done => /\ InteriorRowsOnly(G, DiffusionRows(G, AbsField(C)))
                 /\ InteriorRowsOnly(G, CentralRows(G, C))
                 /\ InteriorRowsOnly(G, UpwindRows(G, C, C))
 \* C03: ghost values satisfy the Robin relation / wrap; the boundary rows encode the same relation
-TestField(g) == [c \in AllCells(g) |-> R(1 + ((LinIdx(g, c) * 7) % 5))]
 DC03 == Done =>
    LET bc == BCFor(G, cfg.bck)
        full == GhostValues(G, bc, TestField(G))
